@@ -44,17 +44,17 @@ func check(r *mc.Run, scen string, ref, t time.Time) {
 func refs() []time.Time {
 	var out []time.Time
 	add := func(u int64) { out = append(out, time.Unix(u, 0).UTC()) }
-	add(0)                                                          // 1970
-	add(time.Date(2024, 1, 17, 0, 0, 0, 0, time.UTC).Unix())       // the reference used by the unit tests
-	for e := int64(1); e <= 3; e++ {                               // era 0/1, 1/2, 2/3 boundaries (2036, 2172, 2308)
+	add(0)                                                   // 1970
+	add(time.Date(2024, 1, 17, 0, 0, 0, 0, time.UTC).Unix()) // the reference used by the unit tests
+	for e := int64(1); e <= 3; e++ {                         // era 0/1, 1/2, 2/3 boundaries (2036, 2172, 2308)
 		b := ntpEpoch + e*eraSecs
 		for _, d := range []int64{-2, -1, 0, 1, 2, 100, -100, 1 << 31, -(1 << 31), 1<<31 - 1, -(1<<31 - 1)} {
 			add(b + d)
 		}
 	}
-	add(ntpEpoch + eraSecs + eraSecs/2)                         // mid era 1
-	add(time.Date(2400, 1, 1, 0, 0, 0, 0, time.UTC).Unix())     // beyond 2400
-	add(ntpEpoch + (int64(1) << 33))                            // 2^33 s after 1900
+	add(ntpEpoch + eraSecs + eraSecs/2)                     // mid era 1
+	add(time.Date(2400, 1, 1, 0, 0, 0, 0, time.UTC).Unix()) // beyond 2400
+	add(ntpEpoch + (int64(1) << 33))                        // 2^33 s after 1900
 	return out
 }
 
